@@ -221,12 +221,7 @@ class SetextHeading(BlockToken):
         raise NotImplementedError()
 
 
-class _LazyLine(str):
-    """
-    A lazy continuation line: paragraph continuation text that lacks the marker or
-    indentation of the container(s) it continues. It can never be the underline
-    of a setext heading.
-    """
+_LazyLine = tokenizer.LazyLine
 
 
 class Quote(BlockToken):
@@ -258,9 +253,6 @@ class Quote(BlockToken):
         line_buffer = [line]
         start_line = lines.line_number()
 
-        # set booleans
-        in_code_fence = CodeFence.start(line)
-        in_block_code = BlockCode.start(line)
         blank_line = line.strip() == ''
 
         # following lines
@@ -277,21 +269,23 @@ class Quote(BlockToken):
                 if stripped[1] == ' ':
                     prepend += 1
                 stripped = stripped[prepend:]
-                in_code_fence = CodeFence.start(stripped)
-                in_block_code = BlockCode.start(stripped)
                 blank_line = stripped.strip() == ''
                 line_buffer.append(stripped)
-            elif in_code_fence or in_block_code or blank_line:
-                # not paragraph continuation text
+            elif blank_line:
+                # no paragraph is open after a blank line
                 break
             else:
-                # lazy continuation, preserve whitespace
+                # a lazy continuation line, if a paragraph is open at this point: the blocks
+                # of the quote have to be parsed to know that (see below). preserve whitespace
                 line_buffer.append(_LazyLine(next_line))
             next(lines)
             next_line = lines.peek()
 
         # parse child block tokens
-        return tokenizer.tokenize_block(line_buffer, _token_types, start_line=start_line)
+        parse_buffer = tokenizer.tokenize_block(line_buffer, _token_types, start_line=start_line)
+        # lines taken for lazy continuation lines that do not continue a paragraph are not part of the quote
+        lines.set_pos(lines.get_pos() - parse_buffer.unread)
+        return parse_buffer
 
     @staticmethod
     def convert_leading_tabs(string):
@@ -392,6 +386,9 @@ class BlockCode(BlockToken):
         line_buffer = []
         trailing_blanks = 0
         for line in lines:
+            if isinstance(line, _LazyLine):
+                lines.backstep()
+                break
             if line.strip() == '':
                 line_buffer.append(line.lstrip(' ') if len(line) < 5 else line[4:])
                 trailing_blanks += 1
@@ -468,6 +465,10 @@ class CodeFence(BlockToken):
         next(lines)
         line_buffer = []
         for line in lines:
+            if isinstance(line, _LazyLine):
+                # the container ended, and the code block with it
+                lines.backstep()
+                break
             stripped_line = line.lstrip(' ')
             diff = len(line) - len(stripped_line)
             # a closing fence repeats the fence character at least as often as the opening one, and nothing else follows it
@@ -634,6 +635,7 @@ class ListItem(BlockToken):
     def read(cls, lines, prev_marker=None):
         next_marker = None
         line_buffer = []
+        line_positions = []  # for every line in the buffer, the reading position before it
 
         # first line
         line = next(lines)
@@ -660,6 +662,7 @@ class ListItem(BlockToken):
                 return (parse_buffer, indentation, prepend, leader, start_line), next_marker
         else:
             line_buffer.append(content)
+            line_positions.append(lines.get_pos() - 1)
 
         # loop over the following lines, looking for the end of the list item
         breaking_tokens = [t for t in _token_types if hasattr(t, 'check_interrupts_paragraph') and not t == List]
@@ -669,7 +672,7 @@ class ListItem(BlockToken):
                 # list item ends here because we have reached the end of content
                 if newline_count:
                     lines.backstep()
-                    del line_buffer[-newline_count:]
+                    del line_buffer[-newline_count:], line_positions[-newline_count:]
                 break
 
             continuation = cls.parse_continuation(next_line, prepend)
@@ -680,7 +683,7 @@ class ListItem(BlockToken):
                 if any(token_type.check_interrupts_paragraph(lines) for token_type in breaking_tokens):
                     if newline_count:
                         lines.backstep()
-                        del line_buffer[-newline_count:]
+                        del line_buffer[-newline_count:], line_positions[-newline_count:]
                     break
                 # ...or it's a new list item
                 marker_info = cls.parse_marker(next_line)
@@ -689,16 +692,17 @@ class ListItem(BlockToken):
                     if newline_count and not List.same_marker_type(leader, marker_info[2]):
                         # it starts another list: the blank lines before it do not belong to this item
                         lines.backstep()
-                        del line_buffer[-newline_count:]
+                        del line_buffer[-newline_count:], line_positions[-newline_count:]
                     break
                 # ...or the line above it was blank
                 if newline_count:
                     lines.backstep()
-                    del line_buffer[-newline_count:]
+                    del line_buffer[-newline_count:], line_positions[-newline_count:]
                     break
                 continuation = _LazyLine(next_line)
 
             line_buffer.append(continuation)
+            line_positions.append(lines.get_pos())
             newline_count = newline_count + 1 if continuation == '\n' else 0
             next(lines)
             next_line = lines.peek()
@@ -706,6 +710,10 @@ class ListItem(BlockToken):
         # block-level tokens are parsed here, so that footnotes can be
         # recognized before span-level parsing.
         parse_buffer = tokenizer.tokenize_block(line_buffer, _token_types, start_line=content_start_line)
+        if parse_buffer.unread:
+            # lines taken for lazy continuation lines that do not continue a paragraph: the item, and its list, end before them
+            lines.set_pos(line_positions[-parse_buffer.unread])
+            next_marker = None
         return (parse_buffer, indentation, prepend, leader, start_line), next_marker
 
 
@@ -848,6 +856,9 @@ class Footnote(BlockToken):
     and stored into the root node within `Footnote.read()`. We don't put instances of
     this class into the resulting AST.
     """
+    # definitions are cut from the start of a paragraph; what follows them directly is the rest of that paragraph
+    starts_paragraph = True
+
     def __new__(cls, _):
         return None
 
@@ -1128,6 +1139,9 @@ class HtmlBlock(BlockToken):
         # note: stop condition can trigger on the starting line
         line_buffer = []
         for line in lines:
+            if isinstance(line, _LazyLine):
+                lines.backstep()
+                break
             line_buffer.append(line)
             if cls._end_cond is not None:
                 end_conds = cls._end_cond if isinstance(cls._end_cond, tuple) else (cls._end_cond,)
